@@ -35,6 +35,7 @@ func evalC05(cs *c05Case) (vs []*Violation, ok bool) {
 		c.Extra = map[string]any{"case": cs}
 		vs = append(vs, &Violation{Property: "C05", Site: "ParseSIPMsg", Rule: rule, Class: class, Detail: detail, Case: c})
 	}
+	defer recoverTo3(add)
 	m := new(sipsp.PSIPMsg)
 	m.Init(nil, mkHdrs(cs.HdrCap), mkVals(cs.ValCap))
 	po := cs.Offs
